@@ -111,13 +111,19 @@ func (r *Replayer) runExportImport(k int, c *Concrete, q *Query, fail func(exp, 
 			before, _ := r.S.Digest()
 			cfg := NewConfig(r.S.Cfg.Db.SQLite.FilePath)
 			cfg.Db.PreparedDb, cfg.Db.PreparedDbFilePath = true, name
-			if db, err := database.Init(cfg, &r.S.log); err != nil {
-				fail("start with prepared_db on a populated database succeeds and imports nothing", err.Error())
-			} else {
-				_ = db.Close()
-			}
-			if after, _ := r.S.Digest(); after != before {
-				fail("populated database untouched by an import", before+" -> "+after)
+			// with the newest checkpoint at the exported tip (stored), and with one the database has not reached yet
+			far := chainhash.Hash{0x5a, 0xa5}
+			for _, cps := range [][]chaincfg.Checkpoint{config.Checkpoints, {{Height: int32(len(ids) + 4), Hash: &far}}} {
+				config.Checkpoints = cps
+				if db, err := database.Init(cfg, &r.S.log); err != nil {
+					fail(fmt.Sprintf("start with prepared_db on a populated database (newest checkpoint at height %d) succeeds and imports nothing", cps[0].Height), err.Error())
+				} else {
+					_ = db.Close()
+				}
+				if after, _ := r.S.Digest(); after != before {
+					fail("populated database untouched by an import", before+" -> "+after)
+					break
+				}
 			}
 			gname := fmt.Sprintf("genesisonly-%d.db", r.cur)
 			defer os.Remove(gname)
